@@ -39,6 +39,7 @@ CONSTANTS
  Variant = "{variant}"
  EmitInstances = {emit}
  Sample = {sample}
+ CheckInvariance = {inv}
 INVARIANT Feasible
 INVARIANT PruneSafe
 INVARIANT SoftPruneSafe
@@ -46,6 +47,8 @@ INVARIANT SoftLE
 INVARIANT AllNullPasses
 INVARIANT SingletonsAreCands
 INVARIANT BackendFree
+INVARIANT PermInvariant
+INVARIANT DeltaEmptyLinear
 """
 ENUM_CFG = """SPECIFICATION Spec
 CONSTANTS
@@ -77,12 +80,12 @@ UNIVERSES = {
 }
 
 
-def l1_align(rep, names, emit=False, sample_mult=1):
+def l1_align(rep, names, emit=False, sample_mult=1, inv=False):
     insts = []
     for name in names:
         u = dict(UNIVERSES[name])
         u["sample"] = u["sample"] * sample_mult
-        cfg = MC_ALIGN_CFG.format(variant="none", emit="TRUE" if emit else "FALSE", **u)
+        cfg = MC_ALIGN_CFG.format(variant="none", emit="TRUE" if emit else "FALSE", inv="TRUE" if inv else "FALSE", **u)
         res = tlc.run("MC_Align", cfg, label=f"MC_Align {name}", workers=16, timeout=1500)
         if res.violated:
             raise MachineryError(f"MC_Align {name}: spec violates {res.violated}\n{res.trace_text[:2000]}")
@@ -96,7 +99,7 @@ def l1_align(rep, names, emit=False, sample_mult=1):
 
 
 def l1_align_mutants(rep):
-    cfg = MC_ALIGN_CFG.format(variant="crit_without_n", emit="FALSE", na=2, maxu=2, dvals="{0, 12, 20}", de=8, sample=0)
+    cfg = MC_ALIGN_CFG.format(variant="crit_without_n", emit="FALSE", inv="FALSE", na=2, maxu=2, dvals="{0, 12, 20}", de=8, sample=0)
     r = tlc.run("MC_Align", cfg, label="mutant crit_without_n", workers=16, timeout=600, coverage=False)
     if not ({"PruneSafe", "SingletonsAreCands", "Feasible", "SoftPruneSafe"} & set(r.violated)):
         raise MachineryError(f"mutant crit_without_n not rejected: {r.violated} {r.errors}")
